@@ -169,6 +169,16 @@ Fixpoint ticks_after_flag (flagged : bool) (tr : trace) : nat :=
   | (TCtl, LSaveCond _) :: r => (if flagged then 1 else 0) + ticks_after_flag flagged r
   | _ :: r => ticks_after_flag flagged r
   end.
+(* ... and the control thread's loop delay is slept at most twice more (the tick in flight may end without having
+   seen the flag; the next one sees it, shuts down and ends): nothing carries on with a dead thread *)
+Fixpoint sleeps_after_flag (flagged : bool) (tr : trace) : nat :=
+  match tr with
+  | [] => 0
+  | (TBg _, LSet (EExc _)) :: r => sleeps_after_flag true r
+  | (TCtl, LSleep) :: r => (if flagged then 1 else 0) + sleeps_after_flag flagged r
+  | _ :: r => sleeps_after_flag flagged r
+  end.
+
 (* failures of the control loop itself (save condition, state save): no further tick begins, and launch() raises
    exactly when such a failure (or a failing final save) happened - a failure of a background thread or an
    interrupt makes it return normally *)
@@ -182,7 +192,7 @@ Fixpoint c03_mon (cfault : bool) (tr : trace) : bool :=
   end.
 Definition C03_ok (tr : trace) : bool :=
   (* the flag is polled in the tick that is running or in the next one: at most one more tick begins *)
-  (ticks_after_flag false tr <=? 1) && c03_mon false tr.
+  (ticks_after_flag false tr <=? 1) && (sleeps_after_flag false tr <=? 2) && c03_mon false tr.
 
 (* ---------- C08: launch() ends only because of a shutdown command, the uptime limit, an interrupt or an exception
    raised by user code (a callback of a background thread, seen through its flag; the save condition; a component's
